@@ -6,6 +6,7 @@ and evaluated on the *implementation's* responses.
 import HdwModel.Driver.Util
 import HdwModel.Spec.Rlp
 import HdwModel.Spec.Bip39
+import HdwModel.Spec.Bip39English
 import HdwModel.Model.Wordlist
 import HdwModel.Spec.Bip32
 import HdwModel.Spec.Ecdsa
@@ -45,11 +46,14 @@ def judgeMsgHash (m : Bytes) (resp : String) : Verdict :=
 
 /-! ### C01 / C12 -/
 
+/-- the REFERENCE BIP-39 English list (not the repository's regenerated one) -/
+def referenceTable : List Str := Spec.Bip39.englishBytes.map fun w => w.map fun b => Char.ofNat b.toNat
+
 /-- executable form of `Spec.Bip39.Valid`: the unique candidate entropy is the top ENT bits -/
 def bip39Entropy? (words : List Str) : Option Bytes :=
   let n := words.length
   if n == 12 || n == 15 || n == 18 || n == 21 || n == 24 then
-    match words.mapM (fun w => Wordlist.table.idxOf? w) with
+    match words.mapM (fun w => referenceTable.idxOf? w) with
     | none => none
     | some idxs =>
       let v := idxs.foldl (fun a i => a * 2048 + i) 0
